@@ -94,7 +94,10 @@ trait Channel: Sized
 
 // `type Watcher = Box<dyn FnOnce() + Send>` (lib.rs:712) and `struct Watchers` (lib.rs:707) are
 // declared opaque: Verus rejects `dyn` with more than one trait. A watcher is known by a ghost id;
-// the two lists are known by the sequence of ids they hold. Their bodies are not verified here.
+// the two lists are known by the sequence of ids they hold. Their bodies are not verified here: the contracts
+// below are the clauses of watchers_contract.rs, which batcher_watchers.vx PROVES for the real text of
+// `impl Watchers` (any number of watchers).
+//@include watchers_contract.rs
 #[verifier::external_body]
 pub struct Watcher { f: Box<dyn FnOnce() + Send> }
 
@@ -115,7 +118,7 @@ impl Watchers {
     // lib.rs:721-726 `Watchers { on_take: Vec::new(), on_flush: Vec::new() }`
     #[verifier::external_body]
     pub fn new() -> (r: Self)
-        ensures r.on_take().len() == 0, r.on_flush().len() == 0,
+        ensures watchers_empty(r.on_take(), r.on_flush()),
     {
         Watchers { on_take: Vec::new(), on_flush: Vec::new() }
     }
@@ -123,9 +126,7 @@ impl Watchers {
     // lib.rs:728-730 `self.on_flush.push(watcher)`
     #[verifier::external_body]
     pub fn push_on_flush(&mut self, watcher: Watcher)
-        ensures
-            final(self).on_flush() == old(self).on_flush().push(watcher.id()),
-            final(self).on_take() == old(self).on_take(),
+        ensures watchers_pushed(old(self).on_flush(), old(self).on_take(), watcher.id(), final(self).on_flush(), final(self).on_take()),
     {
         self.on_flush.push(watcher);
     }
@@ -133,9 +134,7 @@ impl Watchers {
     // lib.rs:738-740 `self.on_take.push(watcher)`
     #[verifier::external_body]
     pub fn push_on_take(&mut self, watcher: Watcher)
-        ensures
-            final(self).on_take() == old(self).on_take().push(watcher.id()),
-            final(self).on_flush() == old(self).on_flush(),
+        ensures watchers_pushed(old(self).on_take(), old(self).on_flush(), watcher.id(), final(self).on_take(), final(self).on_flush()),
     {
         self.on_take.push(watcher);
     }
@@ -145,7 +144,7 @@ impl Watchers {
 impl Default for Watchers {
     #[verifier::external_body]
     fn default() -> (r: Self)
-        ensures r.on_take().len() == 0, r.on_flush().len() == 0,
+        ensures watchers_empty(r.on_take(), r.on_flush()),
     {
         Watchers::new()
     }
